@@ -95,6 +95,9 @@ class BuiltinMixin:
         if isinstance(v, SV) and v.ty is TStr:
             return v
         if isinstance(v, SV) and v.ty is TInt:
+            if getattr(self, "str_shape", None) == "range":
+                from .values import NUMSTR
+                return SV(TStr, NUMSTR(v.t))
             return SV(TStr, z3.If(v.t >= 0, z3.IntToStr(v.t), z3.Concat(z3.StringVal("-"), z3.IntToStr(-v.t))))
         if isinstance(v, SOpt):
             raise Unsupported("str(optional)")
@@ -446,6 +449,13 @@ class BuiltinMixin:
                 r = z3.String(fresh_name("joined"))     # some text whose whitespace tokens are exactly the list
                 i = z3.Int(fresh_name("jn"))
                 st.pc = st.pc + (WS_LEN(r) == parts.n, z3.ForAll([i], z3.Implies(z3.And(0 <= i, i < parts.n), WS_ARR(r)[i] == parts.a[i])))
+                return SV(TStr, r)
+            if isinstance(parts, SList) and parts.ety is TStr and isinstance(s, str) and s == ",":
+                # ",".join(tokens): some text whose comma separated tokens are exactly the list (tokens contain no comma)
+                from .values import CSV_LEN, CSV_ARR
+                r = z3.String(fresh_name("csv"))
+                i = z3.Int(fresh_name("jn"))
+                st.pc = st.pc + (CSV_LEN(r) == parts.n, z3.ForAll([i], z3.Implies(z3.And(0 <= i, i < parts.n), CSV_ARR(r)[i] == parts.a[i])))
                 return SV(TStr, r)
             raise Unsupported("join of symbolic list")
         if name == "split":
